@@ -639,6 +639,10 @@ var Injectors = []injector{
 			return nil
 		}
 		*tree = (*tree)[1:]
+		if (*tree)[0].Kw == "PASTE" {
+			// the first directive is then a pasted one: the error may name the PASTE or the directive in the macro body
+			return nil
+		}
 		return &Fault{Class: "jsight:missing", Msg: []string{"The first directive in the document must be JSIGHT"}, DirID: (*tree)[0].ID}
 	}},
 	{"jsight:repeated", func(r Rnd, tree *[]*Dir, ids *int) *Fault {
@@ -660,6 +664,9 @@ var Injectors = []injector{
 		nl := append([]*Dir(nil), rest[:at]...)
 		nl = append(nl, js)
 		*tree = append(nl, rest[at:]...)
+		if (*tree)[0].Kw == "PASTE" {
+			return nil
+		}
 		return &Fault{Class: "jsight:not-first", Msg: []string{"The first directive in the document must be JSIGHT"}, DirID: (*tree)[0].ID}
 	}},
 	{"jsight:unsupported-version", func(r Rnd, tree *[]*Dir, ids *int) *Fault {
